@@ -363,7 +363,7 @@ def check_circuit(case):
 @st.composite
 def tensor_cases(draw, tier):
     entry = st.one_of(st.sampled_from(EXPRS), st.integers(-2, 2),
-                      st.sampled_from(EXPRS))
+                      st.sampled_from(EXPRS + ["I*x", "x + I*y", "3 - I"]))
     dom = draw(st.sampled_from([[], [], [[2, 0]]]))
     scan, layers = [list(w) for w in dom], []
     for k in range(draw(st.integers(1, 3))):
